@@ -114,6 +114,24 @@ def mon_unchanged_on_raise(ctx, res):
         yield (f"{ctx.case['kind']}:{note}:mutated-before-raise:{obs.exc}",
                f"{_case_str(ctx.case)} raised {obs.exc} ({obs.exc_msg}) but the running order changed: "
                f"{_fmt(ctx.seq_before)} -> {_fmt(ctx.seq_after)}; first difference {d}")
+        return
+    # the documented method behind `+`: msg.merge(ro) on freshly parsed objects must leave ro unchanged as well when it raises
+    if getattr(ctx, 'ro_obj', None) is None or not obs.merge_error:
+        return
+    from . import target
+    ro2, e1 = target.parse(ctx.ns, ctx.before)
+    m2, e2 = target.parse(ctx.ns, ctx.msg)
+    if ro2 is None or m2 is None:
+        return
+    o2 = _merge_direct(ctx.ns, ro2, m2)
+    res.extra['raising_transitions_repeated_through_msg.merge'] += 1
+    if o2.exc is not None and o2.after != o2.before:
+        try:
+            d = tree.first_diff(tree.node(tree.read(o2.before)), tree.node(tree.read(o2.after)))
+        except Exception as ex:  # noqa
+            d = f'unreadable after state: {ex}'
+        yield (f"{ctx.case['kind']}:{note}:msg.merge:mutated-before-raise:{o2.exc}",
+               f"{_case_str(ctx.case)} through msg.merge(ro) raised {o2.exc} ({o2.exc_msg}) but the running order changed; first difference {d}")
 
 
 # ================================================================ C12
@@ -435,7 +453,7 @@ def _payload_reuse(ctx, res):
         src = base.find('element_source') if base.tag == 'roElementAction' else base
         carried = [tree.child_text(c, 'storyID') for c in src if c.tag == 'story']
         carried = [c for c in carried if va.story(c) is not None and (kind == 'RunningOrderReplace' or ctx.view.story(c) is None or
-                                                                       c == ctx.case.get('tgt'))]
+                                                                       (c == ctx.case.get('tgt') and kind in ('StoryReplace', 'EAStoryReplace')))]
     if not carried:
         return
     edits = 0
